@@ -41,7 +41,7 @@ ASSUMPTIONS = [
     "pre-emption points are public-API steps; threads sharing one parser are not simulated (no such promise)",
     "'result' = text, XML bytes and the canonical LTPage tree incl. names, matrices, colours, points (LTPage.pageid, a per-call counter, is excluded when pages are extracted individually)",
 ]
-PROBES = ["one document walked twice with the same objects", "interleaved iterators of different documents", "iterator abandoned half-consumed", "call repeated later in history", "gc.collect step", "caching off", "eviction happened", "address policy rev", "address policy rand", "hash-seed re-execution", "cmap cache digest compared", "page replaces font under same resource name", "pages share font object", "page uses undefined font name", "direct font dictionary", "unpainted path at page end", "encrypted", "cjk-euc-h", "unknown-base-diffs-A", "no-encoding", "type0-shared-descendant-A", "type0-shared-descendant-B", "shared-diffs-A", "shared-diffs-B", "helvetica-custom-encoding", "repository sample"]
+PROBES = ["twin of another document (same numbering, other fonts)", "type3-indirect-bbox-broken", "indirect-width-broken", "one document walked twice with the same objects", "interleaved iterators of different documents", "iterator abandoned half-consumed", "call repeated later in history", "gc.collect step", "caching off", "eviction happened", "address policy rev", "address policy rand", "hash-seed re-execution", "cmap cache digest compared", "page replaces font under same resource name", "pages share font object", "page uses undefined font name", "direct font dictionary", "unpainted path at page end", "encrypted", "cjk-euc-h", "unknown-base-diffs-A", "no-encoding", "type0-shared-descendant-A", "type0-shared-descendant-B", "shared-diffs-A", "shared-diffs-B", "helvetica-custom-encoding", "repository sample"]
 TIERS = {
     "quick": {"batches": 16, "runs": 14, "budget_s": 150},
     "thorough": {"batches": 128, "runs": 120, "budget_s": 1200},
@@ -169,15 +169,28 @@ def call_fp(data, la, caching, kind):
     return out.getvalue()
 
 
+def pages_steps(data, la, caching):
+    """The pages as a page iterator delivers them one by one; when a page raises, the list ends with 'raise:...'."""
+    out = []
+    try:
+        for p in call_pages(data, la, caching):
+            out.append(page_canon(p))
+    except Exception as e:
+        out.append("raise:%s@%s" % (type(e).__name__, where(e)))
+    return out
+
+
 def reference(data, la):
     """Everything the history can observe about (document, LAParams variant), computed once."""
     ref = {}
-    try:
-        pages = [page_canon(p) for p in call_pages(data, la, True)]
-        ref["pages"] = pages
-    except Exception as e:
-        ref["pages"] = "raise:%s@%s" % (type(e).__name__, where(e))
-        pages = []
+    pages = pages_steps(data, la, True)
+    ref["pages"] = pages
+    raised = bool(pages) and pages[-1].startswith("raise:")
+    ref["whole"] = pages[-1] if raised else pages  # what a call that reads all pages at once gives
+    if raised:
+        # (how many pages there are is not known then: single-page calls up to the fourth are recorded)
+        pages = [None] * 4
+        ref["single"] = [observe_call(data, la, True, "single", i) for i in range(4)]
     for name, fn in (("text", lambda: call_text(data, la, True)), ("fp-text", lambda: call_fp(data, la, True, "text")), ("fp-xml", lambda: call_fp(data, la, True, "xml")), ("fp-html", lambda: call_fp(data, la, True, "html")), ("fp-hocr", lambda: call_fp(data, la, True, "hocr"))):
         try:
             ref[name] = fn()
@@ -329,6 +342,8 @@ def observe_call(data, la, caching, what, arg):
     try:
         if what == "pages":
             return [page_canon(p) for p in call_pages(data, la, caching)]
+        if what == "pages-steps":
+            return pages_steps(data, la, caching)
         if what == "single":
             return [page_canon(p) for p in call_pages(data, la, caching, page_numbers=pageset(arg))]
         if what == "doc-twice":
@@ -429,12 +444,14 @@ def run(tape, ctx, item=None):
         r = ref_for(di, la)
         if what == "pages-step":
             want = r["pages"][arg] if isinstance(r["pages"], list) and arg < len(r["pages"]) else r["pages"]
+        elif what == "single" and "single" in r and arg < len(r["single"]):
+            want = r["single"][arg]
         elif what == "single":
             want = [r["pages"][arg]] if isinstance(r["pages"], list) and arg < len(r["pages"]) else ([] if isinstance(r["pages"], list) else r["pages"])
         elif what == "text-single":
             want = r["text-single"][arg] if arg < len(r["text-single"]) else ""
-        elif what == "doc-twice":
-            want = r["pages"]
+        elif what in ("doc-twice", "pages"):
+            want = r["whole"]
         elif what == "html-options":
             want = "done" if not (isinstance(r.get("fp-html"), str) and r["fp-html"].startswith("raise:")) else got
         else:
@@ -442,7 +459,7 @@ def run(tape, ctx, item=None):
         if got == want:
             return
         # attribute the difference: same call, pristine process, same address policy
-        one_what = {"pages-step": "pages"}.get(what, what)
+        one_what = {"pages-step": "pages-steps"}.get(what, what)
         again = ZYG.ask(("one", docs_[di]["data"], la, caching, one_what, arg, addr))
         if what == "pages-step":
             again = again[arg] if isinstance(again, list) and arg < len(again) else again
